@@ -97,11 +97,15 @@ def _mt(rec, sg, variant=0):
 
 
 def _cmp_disc(out, sub, hdr, got, exp, sg, shift=0.0):
+    """discrete profile: time axis exactly; values and multiplicities of the events (the two edge
+    entries frame the profile and never count: only their presence and position are compared)"""
     names = ("x", "y", "mp")
     for name, g, e in zip(names, got, exp):
         g = np.asarray(g, dtype=float)
         sc = sg if name == "x" else 1.0
         e2 = [float(v) * sc + (shift if name == "x" else 0.0) for v in e]
+        if name != "x" and len(g) == len(e2) and len(g) >= 2:
+            g, e2 = g[1:-1], e2[1:-1]
         if len(g) != len(e2) or not all(close(gi, ei, sc) for gi, ei in zip(g, e2)):
             out.append(_mm(sub, "%s %s: %s = %s expected %s" % (sub, hdr, name, fl(g), e2), fl(g), e2))
             return False
